@@ -9,6 +9,7 @@ use std::path::{Path, PathBuf};
 use clock_bound_shm::verif::{set_handler, Point};
 use clock_bound_shm::{ShmReader, ShmWrite, ShmWriter};
 use shmsim::history::{Counters, Violation, ACCESS_BOUND};
+use shmsim::metered::Metered;
 use shmsim::record::{decode, encode, segment_bytes, Decoded};
 use shmsim::sched::{install_quiet_panic_hook, run_scenario, Env, Outcome, ReaderProg, Scenario, Start, WOp};
 use vworld::serde_json::Value;
@@ -462,7 +463,7 @@ fn mode_c11sweep(args: &std::collections::HashMap<String, String>) -> Value {
         let cpath = CString::new(path.to_str().unwrap()).unwrap();
         if after != 0 {
             if let Ok(mut r) = ShmReader::new(&cpath) {
-                if let Ok(c) = r.snapshot() {
+                if let Ok(c) = r.msnapshot() {
                     if decode(c) != Decoded::Publication(g0 + 10) {
                         bad.push(format!("record read back after the update is {:?}", decode(c)));
                     }
@@ -566,7 +567,7 @@ fn mode_c03long(args: &std::collections::HashMap<String, String>) -> Value {
             let mut p = base;
             let mut last = 0u64;
             let mut check = |reader: &mut ShmReader, p: u64, last: &mut u64, what: &str, violations: &mut Vec<Value>, exception_cases: &mut u64| {
-                let d = match reader.snapshot() {
+                let d = match reader.msnapshot() {
                     Ok(c) => decode(c),
                     Err(e) => {
                         violations.push(json!({"sig":"c03long-error","detail":format!("{}: snapshot error {:?}", what, e),"replay":""}));
@@ -637,15 +638,15 @@ fn mode_c03long(args: &std::collections::HashMap<String, String>) -> Value {
                                                      match f[7] { 1 => ClockStatus::Synchronized, 2 => ClockStatus::FreeRunning, _ => ClockStatus::Unknown });
         writer.write(&mk(&f));
         let mut attached = ShmReader::new(&cpath).unwrap();
-        let _ = attached.snapshot();
+        let _ = attached.msnapshot();
         for step in 0..(400 * rounds.max(1)) {
             let k = if step % 3 == 0 { 7 } else { rng.below(8) as usize };
             f[k] = match k { 7 => (f[7] + 1 + rng.below(2) as i64) % 3, 1 | 3 => (f[k] + 1) % 1_000_000_000, _ => f[k] + 1 };
             let rec = mk(&f);
             writer.write(&rec);
             sparse_checks += 1;
-            let got_attached = attached.snapshot().map(|c| *c);
-            let got_fresh = ShmReader::new(&cpath).and_then(|mut r| r.snapshot().map(|c| *c));
+            let got_attached = attached.msnapshot().map(|c| *c);
+            let got_fresh = ShmReader::new(&cpath).and_then(|mut r| r.msnapshot().map(|c| *c));
             for (who, got) in [("attached", got_attached), ("fresh", got_fresh)] {
                 if got != Ok(rec) && violations.len() < 20 {
                     violations.push(json!({"sig":"stale-after-single-field-change","detail":format!("publication #{} changed only field {} of the record; with the writer idle the {} reader returned {:?}, published {:?}", step, ["as_of.sec","as_of.nsec","void_after.sec","void_after.nsec","bound","max_drift","reserved","status"][k], who, got, rec),"replay":""}));
@@ -708,7 +709,7 @@ fn mode_c18cap(args: &std::collections::HashMap<String, String>) -> Value {
                     }
                 })));
             }
-            let res = std::panic::catch_unwind(std::panic::AssertUnwindSafe(|| match reader.snapshot() {
+            let res = std::panic::catch_unwind(std::panic::AssertUnwindSafe(|| match reader.msnapshot() {
                 Ok(c) => format!("{:?}", decode(c)),
                 Err(e) => format!("Err({:?})", e),
             }));
@@ -796,7 +797,7 @@ fn mode_c18cap(args: &std::collections::HashMap<String, String>) -> Value {
                     }
                 })));
             }
-            let res = std::panic::catch_unwind(std::panic::AssertUnwindSafe(|| match reader.snapshot() {
+            let res = std::panic::catch_unwind(std::panic::AssertUnwindSafe(|| match reader.msnapshot() {
                 Ok(c) => format!("{:?}", decode(c)),
                 Err(e) => format!("Err({:?})", e),
             }));
@@ -843,7 +844,7 @@ fn mode_c18cap(args: &std::collections::HashMap<String, String>) -> Value {
         let writer = Rc::new(RefCell::new(new_writer(&path)));
         let cpath = CString::new(path.to_str().unwrap()).unwrap();
         let mut reader = ShmReader::new(&cpath).unwrap();
-        let _ = reader.snapshot();
+        let _ = reader.msnapshot();
         writer.borrow_mut().write(&encode(2));
         let accesses = Rc::new(Cell::new(0u64));
         let next = Rc::new(Cell::new(3u64));
@@ -862,7 +863,7 @@ fn mode_c18cap(args: &std::collections::HashMap<String, String>) -> Value {
                 }
             })));
         }
-        let res = std::panic::catch_unwind(std::panic::AssertUnwindSafe(|| reader.snapshot().is_ok()));
+        let res = std::panic::catch_unwind(std::panic::AssertUnwindSafe(|| reader.msnapshot().is_ok()));
         set_handler(None);
         evaluations += 1;
         gen_cases += 1;
@@ -888,7 +889,7 @@ fn mode_c18cap(args: &std::collections::HashMap<String, String>) -> Value {
             std::fs::write(&path, segment_bytes(1, 6, 3)).unwrap();
             let cpath = CString::new(path.to_str().unwrap()).unwrap();
             let mut reader = ShmReader::new(&cpath).unwrap();
-            let first = match reader.snapshot() { Ok(c) => decode(c), Err(_) => Decoded::Initial };
+            let first = match reader.msnapshot() { Ok(c) => decode(c), Err(_) => Decoded::Initial };
             let writer = Rc::new(RefCell::new(Some(new_writer(&path))));
             // One complete update first so that the cached generation differs.
             writer.borrow_mut().as_mut().unwrap().write(&encode(4));
@@ -927,7 +928,7 @@ fn mode_c18cap(args: &std::collections::HashMap<String, String>) -> Value {
                     }
                 })));
             }
-            let res = std::panic::catch_unwind(std::panic::AssertUnwindSafe(|| match reader.snapshot() {
+            let res = std::panic::catch_unwind(std::panic::AssertUnwindSafe(|| match reader.msnapshot() {
                 Ok(c) => format!("{:?}", decode(c)),
                 Err(e) => format!("Err({:?})", e),
             }));
@@ -999,7 +1000,7 @@ fn mode_c18cap(args: &std::collections::HashMap<String, String>) -> Value {
                 })));
             }
             let res = std::panic::catch_unwind(std::panic::AssertUnwindSafe(|| match ShmReader::new(&cpath) {
-                Ok(mut r) => match r.snapshot() {
+                Ok(mut r) => match r.msnapshot() {
                     Ok(c) => format!("{:?}", decode(c)),
                     Err(e) => format!("Err({:?})", e),
                 },
@@ -1030,6 +1031,9 @@ fn mode_c18cap(args: &std::collections::HashMap<String, String>) -> Value {
         }
     }
     let _ = std::fs::remove_dir_all(&dir);
+    for msg in shmsim::metered::drain_unbounded() {
+        violations.push(json!({"sig": "unbounded-work-in-one-call", "detail": msg, "replay": ""}));
+    }
     json!({"evaluations": evaluations, "stuck_cases": stuck_cases, "new_client_cases": fresh_cases, "start_generation_cases": gen_cases, "max_accesses_per_call": max_accesses, "capped_calls": capped_calls, "violations": violations, "samples": samples})
 }
 
@@ -1048,6 +1052,17 @@ fn main() {
     let args = parse_args();
     let mode = args.get("_").cloned().unwrap_or_default();
     let t0 = std::time::Instant::now();
+    // Signals arriving on whatever thread runs the code under test (no-op handler, no SA_RESTART):
+    // always for the retry-cap cases, on odd shards for the scheduler engines.
+    let (shard, _) = shard_of(&args);
+    let signals = match mode.as_str() {
+        "c18cap" => 150,
+        "sched" | "stopenum" | "c03long" if shard % 2 == 1 => 500,
+        _ => 0,
+    };
+    if signals > 0 {
+        vworld::meter::start_signals(signals);
+    }
     let mut v = match mode.as_str() {
         "sched" => mode_sched(&args),
         "stopenum" => mode_stopenum(&args),
@@ -1057,6 +1072,8 @@ fn main() {
         "replay" => mode_replay(&args),
         m => panic!("unknown mode {:?}", m),
     };
+    vworld::meter::stop_signals();
+    v["hostile_caller_state"] = json!({"errno_values": vworld::meter::ERRNOS.len(), "signal_period_us": signals, "signals_delivered": vworld::meter::SIGNALS_DELIVERED.load(std::sync::atomic::Ordering::Relaxed), "metered_calls": shmsim::metered::calls()});
     v["wall_s"] = json!(t0.elapsed().as_secs_f64());
     let out = arg_str(&args, "out", "");
     if out.is_empty() {
